@@ -1,1 +1,54 @@
-From HV Require Import Evm.ExecModel.
+(** Property C02 — EVM execution never mints or burns the native coin.
+    Only statements; each is closed by a lemma of Evm/SupplyProofs.v / Evm/JournalProofs.v. *)
+From Coq Require Import ZArith List.
+From stdpp Require Import gmap.
+From HV Require Import Evm.ExecModel Evm.JournalProofs Evm.SupplyProofs Evm.Witnesses.
+Local Open Scope Z_scope.
+
+(** Exact accounting of the StateDB commit: for every dirty account the bank balance
+    becomes the cached balance and the total supply moves by exactly the difference
+    (SetBalance mints or burns it); nobody else's bank balance changes.  Hence the
+    supply is conserved by a commit iff the cached balances of the dirty accounts sum
+    to their bank balances — the "mirror" obligation of every precompile. *)
+Theorem C02_commit_mints_or_burns_exactly_cache_minus_bank :
+  forall W D a o W' D', objs D !! a = Some o -> commit_one W D a = (W', D', true) ->
+    zg (bank W') a = obal o /\
+    supply W' = supply W + (obal o - zg (bank W) a) /\
+    (forall b, b <> a -> zg (bank W') b = zg (bank W) b).
+Proof. exact commit_one_exact. Qed.
+Print Assumptions C02_commit_mints_or_burns_exactly_cache_minus_bank.
+
+(** Pure EVM code cannot touch the bank or the supply before the final commit. *)
+Theorem C02_pure_code_never_touches_the_bank_partial :
+  forall i, pure i = true -> forall order o self W D, wf W D ->
+    fst (fst (exec_instr order o self i (W, D))) = W.
+Proof. intros i Hp order o self W D Hwf. exact (proj1 (pure_instr_ext i Hp order o self W D Hwf)). Qed.
+Print Assumptions C02_pure_code_never_touches_the_bank_partial.
+
+(** The property is FALSE on the unchanged tree in four input classes (known findings);
+    each witness pairs the input with the observation of the REAL implementation, the
+    model reproduces it exactly, the transaction succeeds and the supply moves. *)
+Theorem C02_rewards_paid_out_then_overwritten_refuted_K6 :
+  model_obs w_k6_eoa_delegate = impl_obs w_k6_eoa_delegate /\
+  b_ok (model_obs w_k6_eoa_delegate) = true /\ b_supply (model_obs w_k6_eoa_delegate) = -1499.
+Proof. exact k6_refuted. Qed.
+Print Assumptions C02_rewards_paid_out_then_overwritten_refuted_K6.
+
+Theorem C02_contract_withdraws_signer_rewards_refuted_K4 :
+  model_obs w_k4_origin_rewards = impl_obs w_k4_origin_rewards /\
+  b_ok (model_obs w_k4_origin_rewards) = true /\ b_supply (model_obs w_k4_origin_rewards) = -1499.
+Proof. exact k4_refuted. Qed.
+Print Assumptions C02_contract_withdraws_signer_rewards_refuted_K4.
+
+Theorem C02_value_to_precompile_minted_refuted_K5 :
+  model_obs w_k5_value_to_precompile = impl_obs w_k5_value_to_precompile /\
+  b_ok (model_obs w_k5_value_to_precompile) = true /\ b_supply (model_obs w_k5_value_to_precompile) = 7.
+Proof. exact k5_refuted. Qed.
+Print Assumptions C02_value_to_precompile_minted_refuted_K5.
+
+Theorem C02_contract_delegates_for_signer_minted_refuted_K9 :
+  model_obs w_k9_contract_delegates_for_origin = impl_obs w_k9_contract_delegates_for_origin /\
+  b_ok (model_obs w_k9_contract_delegates_for_origin) = true /\
+  b_supply (model_obs w_k9_contract_delegates_for_origin) = 154.
+Proof. exact k9_refuted. Qed.
+Print Assumptions C02_contract_delegates_for_signer_minted_refuted_K9.
